@@ -102,6 +102,10 @@ pub const STATEMENTS: &[&str] = &[
     "a = b * c;", "* comment;", "array a{3} a1-a3;", "put a= b=;", "format a $char10. b 8.2;",
 ];
 
+fn return_str(s: &'static str) -> &'static str {
+    s
+}
+
 fn weighted<'a>(r: &mut Rng) -> &'a str {
     // group weights
     match r.below(100) {
@@ -116,7 +120,11 @@ fn weighted<'a>(r: &mut Rng) -> &'a str {
         55..=63 => r.pick(PERCENTS),
         64..=68 => r.pick(DATALINES),
         69..=73 => r.pick(COMMENTS),
-        74..=82 => r.pick(HOSTILE),
+        74..=81 => r.pick(HOSTILE),
+        82 => {
+            let l = lookalikes();
+            return_str(l[r.below(l.len())].as_str())
+        }
         83..=89 => r.pick(WORDS),
         _ => r.pick(STATEMENTS),
     }
@@ -185,4 +193,41 @@ pub fn short_string(alphabet: &[&str], len: usize, mut k: usize) -> String {
 
 pub fn short_space_size(alphabet: &[&str], len: usize) -> usize {
     alphabet.len().pow(len as u32)
+}
+
+
+/// Characters whose code point has the low byte of an ASCII character that is significant to the
+/// lexer (catches `c as u8`-style truncation), and identifiers that only *upper-case* to a keyword
+/// under Unicode case mapping (ı -> I, ſ -> S, ß -> SS, ﬁ -> FI, ﬆ -> ST, K (Kelvin) -> k).
+pub fn lookalikes() -> &'static Vec<String> {
+    static T: std::sync::OnceLock<Vec<String>> = std::sync::OnceLock::new();
+    T.get_or_init(|| {
+        let mut v = Vec::new();
+        for base in [0x100u32, 0x200, 0x400, 0x2000, 0x3000, 0x1F600] {
+            for c in "xXeE.;'\"%&*()/=,:$dDtTnNbB019 \n-+<>|!?#@".chars() {
+                if let Some(ch) = char::from_u32(base + c as u32) {
+                    v.push(ch.to_string());
+                }
+            }
+        }
+        for kw in [
+            "if", "set", "cross", "missing", "filename", "in", "else", "datalines", "cards", "lines", "is", "insert", "select",
+            "list", "distinct", "first", "join", "exists", "index", "asc", "desc", "using", "test", "restrict", "libname", "infile",
+        ] {
+            let subs: [(&str, &str); 6] = [("i", "ı"), ("s", "ſ"), ("ss", "ß"), ("fi", "ﬁ"), ("st", "ﬆ"), ("k", "\u{212a}")];
+            for (a, b) in subs {
+                if kw.contains(a) {
+                    v.push(kw.replacen(a, b, 1));
+                    v.push(kw.replace(a, b));
+                    v.push(format!("%{}", kw.replacen(a, b, 1)));
+                }
+            }
+        }
+        for kw in ["%ıf", "%elſe", "%ſtr", "%nrſtr", "%ſcan", "%ſubstr", "%ſysfunc", "%ındex", "%do ı=1 %to 2;", "%lıst", "%ſysevalf(1)"] {
+            v.push(kw.to_string());
+        }
+        v.sort();
+        v.dedup();
+        v
+    })
 }
